@@ -26,6 +26,7 @@ variant makes each generator one atomic step, i.e. the sequential theorems apply
 import LinVerif.Model.IdAssignCfg
 import LinVerif.Lemmas.C09Kv
 import LinVerif.Lemmas.C09Run
+import LinVerif.Lemmas.C09Index
 
 namespace LinVerif.Props.C09
 open LinVerif.IdAssign LinVerif.Generated
@@ -220,6 +221,62 @@ theorem fresh_after_recover (c : Cfg) {nd : Node} (inv : NodeInv nd) (op : Op) (
   subst this
   rw [hnew] at hused; cases hused
 
+/-! ### ids used by recovered index entries -/
+
+theorem tvStep_epoch (c : Cfg) (ops : List Op) : ∀ nd, NodeInv nd → epochOk c nd ops → TvStep nd (run c nd ops) := by
+  induction ops with
+  | nil => intro nd _ _; exact TvStep.refl _
+  | cons op rest ih =>
+    intro nd inv hh
+    obtain ⟨hr, hno, hrest⟩ := hh
+    simp only [run]
+    exact (tvStep_step c inv op hr).trans (ih _ (step_spec c inv op hr hno).1 hrest)
+
+/-- **fresh_after_recover_index_partial**: `nd0` is the node as it came up after reopen / crash recovery.
+UNDER THE HYPOTHESIS that every tag value id used by a recovered index entry (tag value → series,
+forward index; any shard) lies below the counter the node restarted with — i.e. the counter had
+reached the sequence file before the index entries reached their kv families — a tag value created
+afterwards never receives an id that a recovered index entry uses.
+The current code does not provide the hypothesis (`Neg.fresh_after_recover_index`): the counters are
+written to the mmap page only by `Sequence.Sync()` at the start of a METADATA flush, index entries are
+flushed by the shards' INDEX flushes. The write-through repair provides it (`index_ids_synced_writeThrough`). -/
+theorem fresh_after_recover_index_partial (c : Cfg) {nd0 : Node} (inv : NodeInv nd0)
+    (hsynced : IdxTvBelow nd0 nd0.seqMem.tagValue)
+    (ops : List Op) (h : epochOk c nd0 ops) {tk v i : Nat}
+    (hnew : nd0.view (.md (.tagValue tk v)) = none)
+    (hobs : (.md (.tagValue tk v), i) ∈ observations c nd0 ops) :
+    ∀ sh, (∀ p, p ∈ (nd0.shards sh).inv.all → p.1 ≠ i) ∧ (∀ q, q ∈ (nd0.shards sh).fwd.all → q.2.1 ≠ i) := by
+  obtain ⟨_, _, r⟩ := epoch_final c ops nd0 inv h
+  have hv : (run c nd0 ops).tagValue.lookup tk v = some i := r _ _ hobs
+  have hge : nd0.seqMem.tagValue ≤ i := by
+    rcases (tvStep_epoch c ops nd0 inv h).2 tk v i hv with h0 | h0
+    · have : nd0.tagValue.lookup tk v = none := hnew
+      rw [this] at h0; cases h0
+    · exact h0
+  intro sh
+  refine ⟨fun p hp => ?_, fun q hq => ?_⟩
+  · have := (hsynced sh).1 p hp; omega
+  · have := (hsynced sh).2 q hq; omega
+
+/-- with the write-through repair the hypothesis holds after every history, crash points inside
+metadata and index flushes included: counters synced, index entries' tag value ids below them -/
+theorem index_ids_synced_writeThrough (c : Cfg) (hc : c.seqWriteThrough = true) (lim : Limits) (n : Nat) (ops : List Op)
+    (h : historyOk c { lim := lim, nShards := n } ops) :
+    IdxTvBelow (run c { lim := lim, nShards := n } ops) (run c { lim := lim, nShards := n } ops).seqMem.tagValue := by
+  suffices g : ∀ ops nd, NodeInv nd → WtInv nd → historyOk c nd ops → WtInv (run c nd ops) from
+    (g ops _ (nodeInv_init lim n) ⟨rfl, fun _ => ⟨fun _ hp => (by cases hp), fun _ hq => (by cases hq)⟩⟩ h).idx
+  intro ops
+  induction ops with
+  | nil => intro nd _ w _; exact w
+  | cons op rest ih =>
+    intro nd inv w hh
+    obtain ⟨h1, h2⟩ := hh
+    simp only [run]
+    apply ih _ _ (wtInv_step hc inv w op h1) h2
+    by_cases hr : op.isRecover = true
+    · exact (recover_step_spec c inv op hr).1
+    · exact (step_spec c inv op (by simpa using hr) h1).1
+
 /-! ### non-vacuity: the hypotheses hold on a non-trivial history -/
 
 def sampleHistory : List Op :=
@@ -304,6 +361,28 @@ theorem series_limit_shared_id :
     let nd := run {} { lim := { maxSeries := 2 } }
       [.series 0 0 0 [], .series 0 0 1 [], .series 0 0 2 [], .series 0 0 3 [], .series 0 0 4 []]
     (step {} nd (.series 0 0 3 [])).2 = some (.id 3) ∧ (step {} nd (.series 0 0 4 [])).2 = some (.id 3) := by decide
+
+/-- the history of the witness case: the tag value `1` of tag key 0 is created after the last metadata
+flush (Sync), used by a series, the shard's index is flushed, the node is reopened -/
+def unsyncedHistory : List Op :=
+  [.metric 97 0 0, .tagKey 0 0, .tagValue 0 0, .metaPrepare, .metaFlush, .series 0 0 0 [(0, 1)],
+   .indexPrepare 0, .indexFlush 0, .reopen]
+
+/-- the CURRENT code: after the reopen the new tag value `2` gets id 1 — the id that the recovered
+tag-value→series entry (1, series 0) still uses for the lost tag value `1` -/
+theorem fresh_after_recover_index :
+    let nd := run {} ({} : Node) unsyncedHistory
+    nd.view (.md (.tagValue 0 2)) = none ∧ (step {} nd (.tagValue 0 2)).2 = some (.id 1) ∧
+    (1, 0) ∈ (nd.shards 0).inv.all ∧ ¬ IdxTvBelow nd nd.seqMem.tagValue := by
+  refine ⟨by decide, by decide, by decide, ?_⟩
+  intro h
+  have := (h 0).1 (1, 0) (by decide)
+  revert this; decide
+
+/-- the same history with the write-through repair: the new tag value gets id 2 -/
+theorem fresh_after_recover_index_repaired :
+    (step { seqWriteThrough := true } (run { seqWriteThrough := true } ({} : Node) unsyncedHistory) (.tagValue 0 2)).2 = some (.id 2) := by
+  decide
 
 end Neg
 
